@@ -16,6 +16,7 @@ ID = 'C17'
 LEVEL = 'proof'
 TIE = {'HighestAverages.evaluate': 'correspondence (stream ha-tie, model shared with C01)',
        'component/divisor.py': 'translator (GenTie_Divisor.v, obligation of C01) + strictness lemmas Props/C17.v C17_builtin_strict',
+       'component/rankscore.py': 'translator (GenTie_Rankscore.v, obligation of C13: all six scorers of Model/Convert.v rank_scores)',
        'convert.* additive folds, core.get_n_best': 'models shared with C13 / C09 (correspondence there); relational clauses on the implementation here',
        'condorcet.Copeland/MinimaxCondorcet/Schulze': 'models of C05 (Model/Condorcet.v, correspondence there); relational clauses on the implementation here',
        'convert.RankedToCondorcetVotes.convert': 'correspondence (stream rc-tie against Model/Hybrids.v pairwise, unit C05+2; theorems C17_ballot_pairwise_exact, '
